@@ -15,7 +15,8 @@ from hv.ref import raw
 
 ID = "C11"
 RULE = ("(a) random histories of TraceSymbolTable operations (add_symbols with repeats / unicode / empty strings / sets, clone, "
-        "combine_symbol_tables, create_from_symbol_id_map, add_symbols_mp) under an icontract class invariant (table and index are "
+        "combine_symbol_tables, create_from_symbol_id_map, add_symbols_mp), interleaved with every read view of the table (index / table series, get_symbol_names / get_symbol_ids / find_matches) "
+        "and with frame codecs (encode_df, decode_df, create_from_df, update_encoded_df, add_symbols_to_trace_df, decode_symbol_id_to_symbol_name; object and pandas string columns) under an icontract class invariant (table and index are "
         "inverse bijections) and snapshot/ensure contracts (old table is a prefix of the new one, every added symbol present), plus "
         "all add-sequences of length <= 4 over a 3-symbol alphabet; (b) multi-rank G-struct loads with different vocabularies and "
         "sizes (local tables below / global table above the int8 boundary), multiprocessing on/off, incremental loading histories "
@@ -29,10 +30,12 @@ ASSUMPTIONS = ["only the JSON parser backend is reachable", "fork start method (
 PLAN = {"quick": {"shards": 16, "cases": 720, "timeout": 900}, "thorough": {"shards": 16, "cases": 6000, "timeout": 3400}}
 FLOORS = {"quick": {"distinct_nontrivial": 150, "TraceSymbolTable.invariant": 3000, "add_symbols.post": 1500, "histories": 250, "loads": 80,
                     "rows_decoded": 10000, "delayed_pool_loads": 15, "incremental_histories": 25, "digest_sets": 6, "digest_runs": 36,
-                    "distinct_symbol_orderings": 12, "int8_boundary_loads": 10, "pool_loads_with_more_files_than_workers": 5},
+                    "distinct_symbol_orderings": 12, "int8_boundary_loads": 10, "pool_loads_with_more_files_than_workers": 5,
+                    "view_checks": 400, "codec_checks": 300, "codec_frames_str": 100, "codec_frames_object": 100},
           "thorough": {"distinct_nontrivial": 2000, "TraceSymbolTable.invariant": 40000, "add_symbols.post": 20000, "histories": 3500, "loads": 1000,
                        "rows_decoded": 150000, "delayed_pool_loads": 200, "incremental_histories": 300, "digest_sets": 40, "digest_runs": 400,
-                       "distinct_symbol_orderings": 40, "int8_boundary_loads": 100, "pool_loads_with_more_files_than_workers": 40}}
+                       "distinct_symbol_orderings": 40, "int8_boundary_loads": 100, "pool_loads_with_more_files_than_workers": 40,
+                       "view_checks": 4000, "codec_checks": 3000, "codec_frames_str": 1000, "codec_frames_object": 1000}}
 ALPHA = ["aten::mm", "", "ünï::côdé", "cudaLaunchKernel", " lead", "x" * 300, "a", "b", "Kernel", "ProfilerStep#1", "Undefined-1", "0"]
 
 
@@ -103,6 +106,12 @@ def gen_case(rnd, tier: str, i: Any) -> Dict[str, Any]:
                 ops.append(["add_mp", [syms, [rnd.choice(ALPHA) for _ in range(3)]]])
             else:
                 ops.append(["clone"])
+            # the table as its users read it (views) and use it (encode / decode frames), interleaved with the growth
+            y = rnd.random()
+            if y < 0.25:
+                ops.append(["views", rnd.randrange(10 ** 6)])
+            elif y < 0.5:
+                ops.append(["codec", rnd.randrange(10 ** 6), rnd.choice(["object", "str"])])
         return {"kind": "history", "ops": ops}
     if True:
         big_vocab = rnd.random() < 0.5
@@ -216,6 +225,10 @@ def run_history(case, ctx, res) -> None:  # noqa: ANN001
             ok, _ = drv.guard(res, "add_symbols_mp", st.add_symbols_mp, op[1])
             if ok and st.sym_table[: len(before)] != before:
                 res.bad("append-only-order", "add_symbols_mp renumbered earlier symbols")
+        elif op[0] == "views":
+            _views(st, core.rng("views", op[1]), res)
+        elif op[0] == "codec":
+            _codec(st, core.rng("codec", op[1]), op[2], res)
         elif op[0] == "roundtrip_csv":
             d = d or ctx.scratch.new("c11h")
             p = os.path.join(d, "sym.csv")
@@ -237,6 +250,102 @@ def run_history(case, ctx, res) -> None:  # noqa: ANN001
     res.nontrivial = seen_repeat
     res.trivial_reason = "no repeated symbol"
     res.sample = {"history": case["ops"][:4], "final_size": len(st.sym_table)}
+
+
+def _views(st, rnd, res) -> None:  # noqa: ANN001
+    """Every read access describes the same bijection as (sym_table, sym_index) - also right after the table grew."""
+    import re
+    from hta.common.types import GroupingPattern
+
+    table = list(st.sym_table)
+    res.counters["view_checks"] += 1
+    ok, ser = drv.guard(res, "get_sym_index_series", st.get_sym_index_series)
+    if ok and {k: int(v) for k, v in ser.to_dict().items()} != {x: i for i, x in enumerate(table)}:
+        res.bad("table-api:get_sym_index_series", f"index series {dict(list(ser.to_dict().items())[:5])} ({len(ser)} entries) is not the table's index ({len(table)} symbols)")
+    ok, ser = drv.guard(res, "get_sym_table_series", st.get_sym_table_series)
+    if ok and (ser.tolist() != table or ser.index.tolist() != list(range(len(table)))):
+        res.bad("table-api:get_sym_table_series", f"table series has {len(ser)} entries {ser.tolist()[:5]}, the table {len(table)}: {table[:5]}")
+    if st.get_sym_id_map() != {x: i for i, x in enumerate(table)} or st.get_sym_index() != st.get_sym_id_map() or st.get_sym_table() != table:
+        res.bad("table-api:maps", "get_sym_id_map / get_sym_index / get_sym_table disagree with the table")
+    if st.is_empty() != (len(table) == 0):
+        res.bad("table-api:is_empty", f"is_empty() = {st.is_empty()} for a table of {len(table)} symbols")
+    ids = [rnd.randrange(-2, len(table) + 3) for _ in range(rnd.randint(0, 6))]
+    ok, got = drv.guard(res, "get_symbol_names", st.get_symbol_names, ids)
+    exp = {i: table[i] for i in set(ids) if 0 <= i < len(table)}
+    if ok and {int(k): v for k, v in got.items()} != exp:
+        res.bad("table-api:get_symbol_names", f"get_symbol_names({ids}) = {got}, expected {exp}")
+    pat = rnd.choice(["aten::", "sym1", ".*Kernel", "^$", "a|b", "sym[0-9]$", ".", "Profiler"])
+    inv = rnd.random() < 0.3
+    if not table:
+        return          # pattern look-ups on a table without any symbol raise (empty Series has no .str accessor): outside the statement, see DESIGN O2
+    ok, got = drv.guard(res, "get_symbol_ids", st.get_symbol_ids, GroupingPattern(re.compile(pat), inv))
+    exp = {x: i for i, x in enumerate(table) if (re.match(pat, x) is not None) != inv}
+    if ok and {k: int(v) for k, v in got.items()} != exp:
+        res.bad("table-api:get_symbol_ids", f"get_symbol_ids({pat!r}, inverse={inv}) = {core.short(got, 200)}, expected {core.short(exp, 200)}")
+    pats = [rnd.choice(["aten", "sym", "(", ".", "Kernel", "ï", " ", "x" * 5, "1", "zz"]) for _ in range(rnd.randint(1, 3))]
+    ok, got = drv.guard(res, "find_matches", st.find_matches, pats)
+    exp_i = [i for i, x in enumerate(table) if any(q in x for q in pats)]
+    if ok and list(got) != exp_i:
+        res.bad("table-api:find_matches", f"find_matches({pats}) = {list(got)[:8]}, the symbols containing one of them have ids {exp_i[:8]}")
+    ok, got = drv.guard(res, "find_matched_symbols", st.find_matched_symbols, pats)
+    if ok and list(got) != [table[i] for i in exp_i]:
+        res.bad("table-api:find_matched_symbols", f"find_matched_symbols({pats}) = {list(got)[:5]}, expected {[table[i] for i in exp_i][:5]}")
+
+
+def _codec(st, rnd, dtype: str, res) -> None:  # noqa: ANN001
+    """encode_df / decode_df / create_from_df / update_encoded_df / add_symbols_to_trace_df / decode_symbol_id_to_symbol_name
+    on frames whose name / cat columns hold the table's symbols: decoding yields the strings that were encoded."""
+    import pandas as pd
+    from hta.common.trace_symbol_table import TraceSymbolTable, decode_symbol_id_to_symbol_name
+
+    table = list(st.sym_table)
+    if not table:
+        return
+    res.counters["codec_checks"] += 1
+    n = rnd.randint(1, 12)
+    names = [rnd.choice(table) for _ in range(n)]
+    cats = [rnd.choice(table) for _ in range(n)]
+    df = pd.DataFrame({"name": names, "cat": cats, "ts": list(range(n))})
+    if dtype == "object":
+        df = df.astype({"name": object, "cat": object})
+    res.counters[f"codec_frames_{dtype}"] += 1
+    idx = {x: i for i, x in enumerate(table)}
+    enc = df.copy()
+    ok, _ = drv.guard(res, f"encode_df[{dtype}]", st.encode_df, enc)
+    if not ok:
+        return
+    if enc["name"].tolist() != [idx[x] for x in names] or enc["cat"].tolist() != [idx[x] for x in cats]:
+        res.bad("table-api:encode_df", f"encode_df[{dtype} columns]: names {names[:4]} encoded as {enc['name'].tolist()[:4]}, ids are {[idx[x] for x in names][:4]}")
+        return
+    dec = enc.copy()
+    ok, _ = drv.guard(res, "decode_df", st.decode_df, dec, True)
+    if ok and (dec.get("s_name", pd.Series(dtype=object)).tolist() != names or dec.get("s_cat", pd.Series(dtype=object)).tolist() != cats or dec["name"].tolist() != enc["name"].tolist()):
+        res.bad("table-api:decode_df", f"decode_df(create_new_columns=True) of the encoded frame gives {dec.get('s_name', pd.Series(dtype=object)).tolist()[:4]}, encoded were {names[:4]}")
+    dec2 = enc.copy()
+    ok, _ = drv.guard(res, "decode_df", st.decode_df, dec2, False)
+    if ok and (dec2["name"].tolist() != names or dec2["cat"].tolist() != cats):
+        res.bad("table-api:decode_df", f"decode_df(create_new_columns=False) gives {dec2['name'].tolist()[:4]}, encoded were {names[:4]}")
+    d3 = enc.copy()
+    ok, _ = drv.guard(res, "decode_symbol_id_to_symbol_name", decode_symbol_id_to_symbol_name, d3, st, False)
+    if ok and (d3["s_name"].tolist() != names or d3["s_cat"].tolist() != cats):
+        res.bad("table-api:decode_symbol_id_to_symbol_name", f"s_name {d3['s_name'].tolist()[:4]} != encoded names {names[:4]}")
+    d4 = enc.copy()
+    d4.loc[len(d4)] = {"name": len(table) + 5, "cat": 0, "ts": -1}
+    ok, _ = drv.guard(res, "add_symbols_to_trace_df", st.add_symbols_to_trace_df, d4, "name")
+    if ok and d4["name"].tolist() != names + [""]:
+        res.bad("table-api:add_symbols_to_trace_df", f"expanded names {d4['name'].tolist()[:5]} != {(names + [''])[:5]}")
+    # a table made from the frame itself holds exactly the frame's symbols and encodes / decodes them
+    ok, t2 = drv.guard(res, f"create_from_df[{dtype}]", TraceSymbolTable.create_from_df, df.copy())
+    if ok:
+        if sorted(t2.sym_table) != sorted(set(names) | set(cats)):
+            res.bad("table-api:create_from_df", f"create_from_df holds {sorted(t2.sym_table)[:6]}, the frame's symbols are {sorted(set(names) | set(cats))[:6]}")
+        else:
+            e2 = df.copy()
+            t2.encode_df(e2)
+            # re-target the frame from the small table to the big one: ids change, strings must not
+            ok, _ = drv.guard(res, "update_encoded_df", st.update_encoded_df, e2, t2)
+            if ok and (e2["name"].tolist() != [idx[x] for x in names] or e2["cat"].tolist() != [idx[x] for x in cats]):
+                res.bad("table-api:update_encoded_df", f"after update_encoded_df the ids decode to {[table[i] if 0 <= i < len(table) else None for i in e2['name'].tolist()][:4]}, encoded were {names[:4]}")
 
 
 def run_enum(case, ctx, res) -> None:  # noqa: ANN001
